@@ -22,6 +22,7 @@ import (
 //	eio-write    same with EIO.
 //	eio-read     the Nth read call fails with EIO.
 //	eacces-open  the Nth open call fails with EACCES.
+//	eacces-stat  the Nth stat/lstat call fails with EACCES.
 type Fault struct {
 	Kind   string `json:"kind"`
 	Call   int    `json:"call,omitempty"`
